@@ -28,7 +28,7 @@ def cases(tier, seed):
         for w in list(range(1, n + 1)) + [None]:
             yield f"C17|parallel|n={n},w={w}", {"kind": "parallel", "n": n, "w": w, "tier": tier}
     yield "C17|parallel|n=12,structured-orders", {"kind": "parallel-many", "n": 12, "tier": tier}
-    for cls in ("SequentialModel", "ConfigurableModel"):
+    for cls in ("SequentialModel", "ConfigurableModel", "DeepJSCCModel"):
         yield f"C17|sequential|{cls}", {"kind": "seq-bfs", "cls": cls, "tier": tier}
     yield "C17|sequential|fixed-pipelines", {"kind": "fixed", "tier": tier}
     for n in range(1, 5):
@@ -176,15 +176,35 @@ def seq_bfs_case(p, res):
     import kaira.models as KM
     from kaira.models.base import ConfigurableModel
     from kaira.models.generic.sequential import SequentialModel
-    cls = {"SequentialModel": SequentialModel, "ConfigurableModel": ConfigurableModel}[p["cls"]]
+    from kaira.channels.base import BaseChannel
+    from kaira.constraints.base import BaseConstraint
+    from kaira.models.base import BaseModel
+    from kaira.models.deepjscc import DeepJSCCModel
+    cls = {"SequentialModel": SequentialModel, "ConfigurableModel": ConfigurableModel, "DeepJSCCModel": DeepJSCCModel}[p["cls"]]
     depth = 4 if p["tier"] == "quick" else 6
     cfg = p["cls"]
+
+    def module_stage(base, sid, sink):
+        class R(base):
+            def __init__(self):
+                super().__init__()
+                self.sid = sid
+
+            def forward(self, x, *a, **k):
+                sink.items.append((sid, _val(x), a, tuple(sorted(k.items()))))
+                return x * 16 + sid
+        return R()
 
     class Sys:
         def __init__(self):
             self.sink = Sink()
-            self.model = cls()
-            self.ref = []
+            if cls is DeepJSCCModel:
+                # the declared pipeline encoder(11) -> constraint(12) -> channel(13) -> decoder(14) is the initial step list; it is edited like any other
+                self.model = cls(module_stage(BaseModel, 11, self.sink), module_stage(BaseConstraint, 12, self.sink), module_stage(BaseChannel, 13, self.sink), module_stage(BaseModel, 14, self.sink))
+                self.ref = [11, 12, 13, 14]
+            else:
+                self.model = cls()
+                self.ref = []
             self.stage = {sid: Rec(sid, self.sink) for sid in (1, 2, 3)}      # ONE object per stage id: adding s1 twice puts the same object in twice
     ops = []
     for sid in (1, 2, 3):
